@@ -1,10 +1,14 @@
 #!/bin/bash
-# Build the Coq development from clean (full .vo build), offline.
+# Build the Coq development from clean (full .vo build), offline; then prove the soundness lemmas of the veriT rules
+# as translated from the current source (C18), so that the checks find them cached.
 set -e
-cd "$(dirname "$0")/../coq"
+V="$(cd "$(dirname "$0")/.." && pwd)"
+cd "$V/coq"
 rm -f Makefile Makefile.conf .Makefile.d
 find theories -name '*.vo' -o -name '*.vok' -o -name '*.vos' -o -name '*.glob' -o -name '.*.aux' | xargs -r rm -f
 coq_makefile -f _CoqProject -o Makefile
 ulimit -s unlimited 2>/dev/null || true
 timeout 3000 make -j16
+cd "$V"
+timeout 2400 python3 harness/c18_translate.py --warm || echo "warm-up of the regenerated lemmas did not finish (the checks prove them themselves)"
 echo "setup ok"
